@@ -31,3 +31,13 @@ Definition is_ascii_hexdigit (x : N) : bool :=
   is_ascii_digit x || ((65 <=? x) && (x <=? 70)) || ((97 <=? x) && (x <=? 102)).
 Definition hex_val (x : N) : N :=
   if is_ascii_digit x then x - 48 else if x <? 97 then x - 55 else x - 87.
+
+(* u8::is_ascii_alphanumeric *)
+Definition is_ascii_alphanumeric (x : N) : bool :=
+  is_ascii_digit x || ((65 <=? x) && (x <=? 90)) || ((97 <=? x) && (x <=? 122)).
+
+(* PubidChar ::= #x20 | #xD | #xA | [a-zA-Z0-9] | [-'()+,./:=?;!*#@$_%]
+   (parse_pubid_literal: the bytes of the string literal SP CR LF -'()+,./:=?;!*#@$_%) *)
+Definition pubid_punct : bytes :=
+  [32; 13; 10; 45; 39; 40; 41; 43; 44; 46; 47; 58; 61; 63; 59; 33; 42; 35; 64; 36; 95; 37].
+Definition pubid_char (x : N) : bool := is_ascii_alphanumeric x || mem_b x pubid_punct.
